@@ -652,3 +652,89 @@ func mergeTruth(ms ...map[string]bool) map[string]bool {
 	}
 	return out
 }
+
+// trace follows the unique feasible path from start while the assignment
+// determines every branch; it stops at a return, at EXIT, at a node visited
+// before, or where two successors remain feasible (ok=false then).
+func (cf *caseFn) trace(start int, truth map[string]bool) (path []int, ok bool) {
+	g := cf.g
+	seen := map[int]bool{}
+	n := start
+	for {
+		if seen[n] {
+			return path, true
+		}
+		seen[n] = true
+		path = append(path, n)
+		if _, isRet := g.Nodes[n].N.(*ast.ReturnStmt); isRet || n == g.Exit {
+			return path, true
+		}
+		var next []int
+		for _, e := range g.Nodes[n].Succs {
+			feasible := true
+			switch {
+			case e.Cond != nil:
+				if v := cf.eval(e.Cond, truth); v != triUnknown && (v == triTrue) != e.Truth {
+					feasible = false
+				}
+			case e.SwitchTag != nil && e.CaseVal != nil:
+				k := eqKey(cf.canon(e.SwitchTag), cf.canon(e.CaseVal))
+				if v, known := truth[k]; known && v != e.Truth {
+					feasible = false
+				}
+			}
+			if feasible {
+				next = append(next, e.To)
+			}
+		}
+		if len(next) != 1 {
+			return path, len(next) == 0
+		}
+		n = next[0]
+	}
+}
+
+// lastAssigned returns the canonical right-hand side of the last plain
+// assignment to the named local along the path ("" if none).
+func (cf *caseFn) lastAssigned(path []int, name string) string {
+	out := ""
+	for _, id := range path {
+		switch s := cf.g.Nodes[id].N.(type) {
+		case *ast.AssignStmt:
+			if len(s.Lhs) == len(s.Rhs) {
+				for i, l := range s.Lhs {
+					if id, ok := l.(*ast.Ident); ok && id.Name == name {
+						out = cf.canon(s.Rhs[i])
+					}
+				}
+			}
+		case *ast.DeclStmt:
+			if gd, ok := s.Decl.(*ast.GenDecl); ok {
+				for _, sp := range gd.Specs {
+					if vs, ok := sp.(*ast.ValueSpec); ok {
+						for i, nm := range vs.Names {
+							if nm.Name == name && i < len(vs.Values) {
+								out = cf.canon(vs.Values[i])
+							}
+						}
+					}
+				}
+			}
+		}
+	}
+	return out
+}
+
+// stringLits lists the string literals inside the node, in source order.
+func stringLits(info *types.Info, n ast.Node) []string {
+	var out []string
+	ast.Inspect(n, func(x ast.Node) bool {
+		if bl, ok := x.(*ast.BasicLit); ok && bl.Kind == token.STRING {
+			if s, ok := constString(info, bl); ok {
+				out = append(out, s)
+			}
+		}
+		return true
+	})
+	return out
+}
